@@ -32,9 +32,16 @@ fn flat(l: &[E4]) -> Vec<KB> {
 /// Merkle path of `rows` compression rows (row 0 hashes leaf || sibling 0), direction bits `bits`, final digest and index
 /// accumulator public.  Returns Ok(()) iff the honest execution proves and verifies.
 pub fn merkle_path(rows: usize, bits_pattern: u64, packing: TablePacking) -> Result<(), String> {
+    merkle_path_inner(rows, bits_pattern, packing, 0)
+}
+
+/// With `start_sum = S != 0` the statement is FALSE: the public index is claimed to be `S * 2^(rows-1) + (index of the path)`,
+/// and the prover's trace starts the accumulator of the chain at S instead of 0 (a cell of the chain-start row that no
+/// constraint of the Poseidon2 AIR fixes, PoseidonRows.tla `ChainStartSumFixed`).  Ok(()) = the verifier accepts.
+pub fn merkle_path_inner(rows: usize, bits_pattern: u64, packing: TablePacking, start_sum: u64) -> Result<(), String> {
     let perm = default_koalabear_poseidon2_16();
     let bits: Vec<bool> = (0..rows).map(|i| i > 0 && (bits_pattern >> i) & 1 == 1).collect();
-    let index_sum = KB::from_u64(bits.iter().fold(0u64, |a, &b| 2 * a + u64::from(b)));
+    let index_sum = KB::from_u64(bits.iter().fold(0u64, |a, &b| 2 * a + u64::from(b)) + (start_sum << (rows - 1)));
     let leaf = [limb(1), limb(5)];
     let sibs: Vec<[E4; 2]> = (0..rows).map(|i| [limb(9 + 8 * i as u64), limb(13 + 8 * i as u64)]).collect();
     let mut state: [KB; 16] = flat(&[leaf[0], leaf[1], sibs[0][0], sibs[0][1]]).try_into().unwrap();
@@ -89,6 +96,105 @@ pub fn merkle_path(rows: usize, bits_pattern: u64, packing: TablePacking) -> Res
     for (k, id) in ids.iter().enumerate() {
         runner.set_private_data(*id, NpoPrivateData::new(Poseidon2PermPrivateData { sibling: vec![sibs[k + 1][0], sibs[k + 1][1]] })).map_err(|e| format!("private data: {e:?}"))?;
     }
+    let mut traces = runner.run().map_err(|e| format!("run: {e:?}"))?;
+    if start_sum != 0 {
+        let id = p3_circuit::ops::NpoTypeId::poseidon2_perm(Poseidon2Config::KOALA_BEAR_D4_W16);
+        let mut tr = traces.non_primitive_trace::<p3_circuit::ops::Poseidon2Trace<KB>>(&id).cloned().ok_or("no Poseidon2 trace")?;
+        tr.operations[0].mmcs_index_sum = KB::from_u64(start_sum);
+        traces.non_primitive_traces.insert(id, Box::new(tr));
+    }
+    let cpd = CircuitProverData::new(ProverData::from_airs_and_degrees(&config::koala_bear(), &airs, &degs), pc, npc);
+    let mut prover = BatchStarkProver::new(config::koala_bear()).with_table_packing(packing);
+    prover.register_poseidon2_table::<4>(Poseidon2Config::KOALA_BEAR_D4_W16);
+    prover.register_recompose_table::<4>(false);
+    match catch_unwind(AssertUnwindSafe(|| {
+        let proof = prover.prove_all_tables(&traces, &cpd).map_err(|e| format!("prove: {e:?}"))?;
+        prover.verify_all_tables::<E4>(&proof).map_err(|e| format!("verify: {e:?}"))
+    })) {
+        Ok(r) => r,
+        Err(p) => Err(format!("panic: {}", p.downcast_ref::<String>().cloned().or_else(|| p.downcast_ref::<&str>().map(|s| s.to_string())).unwrap_or_default().chars().take(200).collect::<String>())),
+    }
+}
+
+// ---------------------------------------------------------------------------------------------
+// PoseidonPrep.tla replay: a table whose rows follow a pattern (mf = the row exposes the index accumulator, ns = the row
+// starts a new Merkle chain), proven under a minimum trace height.
+// ---------------------------------------------------------------------------------------------
+/// Returns Ok(()) iff the honest execution proves and verifies.
+pub fn pattern_program(pattern: &[(bool, bool)], min_height: usize) -> Result<(), String> {
+    let perm = default_koalabear_poseidon2_16();
+    let rows = pattern.len();
+    let packing = TablePacking::new(1, 1).with_min_trace_height(min_height);
+    let bit_of = |i: usize| (i * 7 + 3) % 3 == 1;
+    let mut b = CircuitBuilder::<E4>::new();
+    b.enable_poseidon2_perm::<KoalaBearD4Width16, _>(generate_poseidon2_trace::<E4, KoalaBearD4Width16>, perm.clone());
+    b.enable_recompose::<KB>(generate_recompose_trace::<KB, E4>);
+    let mut pubs: Vec<E4> = Vec::new();
+    let mut private: Vec<(p3_circuit::NonPrimitiveOpId, [E4; 2])> = Vec::new();
+    let mut state = [KB::ZERO; 16];
+    let mut acc = 0u64;
+    for (i, &(mf, ns)) in pattern.iter().enumerate() {
+        let chain_last = i + 1 == rows || pattern[i + 1].1;
+        let sib = [limb(9 + 8 * i as u64), limb(13 + 8 * i as u64)];
+        let bit = !ns && bit_of(i);
+        if ns {
+            let leaf = [limb(1 + i as u64), limb(5 + i as u64)];
+            state = flat(&[leaf[0], leaf[1], sib[0], sib[1]]).try_into().unwrap();
+            state = perm.permute(state);
+            acc = 0;
+        } else {
+            let s = flat(&sib);
+            let mut nx = [KB::ZERO; 16];
+            if bit {
+                nx[..8].copy_from_slice(&s);
+                nx[8..].copy_from_slice(&state[..8]);
+            } else {
+                nx[..8].copy_from_slice(&state[..8]);
+                nx[8..].copy_from_slice(&s);
+            }
+            state = perm.permute(nx);
+            acc = 2 * acc + u64::from(bit);
+        }
+        let idx = if mf {
+            pubs.push(E4::from(KB::from_u64(acc)));
+            Some(b.public_input())
+        } else {
+            None
+        };
+        let bit_e = b.alloc_const(if bit { E4::ONE } else { E4::ZERO }, "mmcs_bit");
+        let inputs: Vec<Option<ExprId>> = if ns {
+            let leaf = [limb(1 + i as u64), limb(5 + i as u64)];
+            [leaf[0], leaf[1], sib[0], sib[1]].iter().map(|&v| Some(b.alloc_const(v, "row_in"))).collect()
+        } else {
+            vec![None; 4]
+        };
+        let (id, outs) = b
+            .add_poseidon2_perm(&Poseidon2PermCall { config: Poseidon2Config::KOALA_BEAR_D4_W16, new_start: ns, merkle_path: true, mmcs_bit: Some(bit_e), mmcs_bit2: None, inputs,
+                out_ctl: vec![chain_last, chain_last], return_all_outputs: false, mmcs_index_sum: idx })
+            .map_err(|e| format!("row {i}: {e:?}"))?;
+        if !ns {
+            private.push((id, sib));
+        }
+        if chain_last {
+            let d = [E4::from_basis_coefficients_slice(&state[..4]).unwrap(), E4::from_basis_coefficients_slice(&state[4..8]).unwrap()];
+            for (k, dv) in d.iter().enumerate() {
+                let p = b.public_input();
+                pubs.push(*dv);
+                b.connect(outs[k].ok_or("no output")?, p);
+            }
+        }
+    }
+    let circuit = b.build().map_err(|e| format!("build: {e:?}"))?;
+    let npo_prep: Vec<Box<dyn NpoPreprocessor<KB>>> = vec![Box::new(Poseidon2Preprocessor), Box::new(RecomposePreprocessor::default())];
+    let mut air_builders = poseidon2_air_builders::<_, 4>();
+    air_builders.extend(recompose_air_builders(1, false));
+    let (ad, pc, npc) = get_airs_and_degrees_with_prep::<KoalaBearConfig, _, 4>(&circuit, &packing, &npo_prep, &air_builders, ConstraintProfile::Standard).map_err(|e| format!("airs: {e:?}"))?;
+    let (airs, degs): (Vec<_>, Vec<usize>) = ad.into_iter().unzip();
+    let mut runner = circuit.runner();
+    runner.set_public_inputs(&pubs).map_err(|e| format!("public inputs: {e:?}"))?;
+    for (id, sib) in &private {
+        runner.set_private_data(*id, NpoPrivateData::new(Poseidon2PermPrivateData { sibling: vec![sib[0], sib[1]] })).map_err(|e| format!("private data: {e:?}"))?;
+    }
     let traces = runner.run().map_err(|e| format!("run: {e:?}"))?;
     let cpd = CircuitProverData::new(ProverData::from_airs_and_degrees(&config::koala_bear(), &airs, &degs), pc, npc);
     let mut prover = BatchStarkProver::new(config::koala_bear()).with_table_packing(packing);
@@ -101,6 +207,52 @@ pub fn merkle_path(rows: usize, bits_pattern: u64, packing: TablePacking) -> Res
         Ok(r) => r,
         Err(p) => Err(format!("panic: {}", p.downcast_ref::<String>().cloned().or_else(|| p.downcast_ref::<&str>().map(|s| s.to_string())).unwrap_or_default().chars().take(200).collect::<String>())),
     }
+}
+
+/// `p3r npo-pattern --cases <ndjson of PoseidonPrep.tla> [--stride n]`: one JSON line per case.
+pub fn cmd_pattern(args: &[String]) -> i32 {
+    use std::io::BufRead;
+    let arg = |name: &str| args.iter().position(|a| a == name).and_then(|i| args.get(i + 1).cloned());
+    let Some(cases) = arg("--cases") else { return 2 };
+    let stride: usize = arg("--stride").and_then(|s| s.parse().ok()).unwrap_or(1);
+    let lines: Vec<String> = std::io::BufReader::new(std::fs::File::open(cases).expect("cases")).lines().map(|l| l.unwrap()).filter(|l| !l.trim().is_empty()).collect();
+    let lines: Vec<&String> = lines.iter().step_by(stride.max(1)).collect();
+    let out: std::sync::Mutex<Vec<(usize, Value)>> = std::sync::Mutex::new(Vec::new());
+    let nthreads = 16usize;
+    std::thread::scope(|s| {
+        for t in 0..nthreads {
+            let (lines, out) = (&lines, &out);
+            s.spawn(move || {
+                for (i, l) in lines.iter().enumerate().filter(|(i, _)| i % nthreads == t) {
+                    let c: Value = serde_json::from_str(l).expect("case");
+                    let pattern: Vec<(bool, bool)> = c["rows"].as_array().unwrap().iter().map(|r| (r["mf"].as_bool().unwrap(), r["ns"].as_bool().unwrap())).collect();
+                    let mh = c["min_height"].as_u64().unwrap() as usize;
+                    let r = catch_unwind(AssertUnwindSafe(|| pattern_program(&pattern, mh))).unwrap_or_else(|_| Err("panic while building".into()));
+                    let n = pattern.len();
+                    let shape = format!("rows{}{}+last-row-{}+min-height-{}", if n.is_power_of_two() { "-power-of-two" } else { "-padded" }, if mh > n.next_power_of_two() { "+min-height-pads" } else { "" },
+                        if pattern[n - 1].0 { "exposes-index" } else { "plain" }, mh);
+                    out.lock().unwrap().push((i, json!({"case": c, "shape": shape, "accepted": r.is_ok(), "msg": r.err().map(|e| e.chars().take(200).collect::<String>())})));
+                }
+            });
+        }
+    });
+    let mut v = out.into_inner().unwrap();
+    v.sort_by_key(|x| x.0);
+    for (_, o) in v {
+        println!("{o}");
+    }
+    0
+}
+
+/// `p3r npo-start-sum`: the false index claims of `merkle_path_inner` (one JSON line each); `accepted: true` is the finding.
+pub fn cmd_start_sum(_args: &[String]) -> i32 {
+    for rows in [2usize, 3, 5] {
+        for s in [1u64, 3] {
+            let r = catch_unwind(AssertUnwindSafe(|| merkle_path_inner(rows, 0b1010_1010, TablePacking::new(1, 1), s))).unwrap_or_else(|_| Err("panic while building".into()));
+            println!("{}", json!({"program": "merkle-path-false-index-claim", "rows": rows, "start_sum": s, "accepted": r.is_ok(), "msg": r.err().map(|e| e.chars().take(160).collect::<String>())}));
+        }
+    }
+    0
 }
 
 /// `p3r npo-honest`: one JSON line per honest program.
